@@ -593,7 +593,7 @@ func silenceKlog() {
 // hook and refusal phases: every entry kind x hierarchy depth x AKI combination,
 // with the poison first among three others and last after one other.
 func reduced(s *shape, th bool) bool {
-	if s.val != "utc" || s.h.caEKU || s.h.ik == 4 || s.h.piEKU != 0 || s.h.sameSKI || s.alone {
+	if s.val != "utc" || s.h.caEKU || s.h.ik == 4 || s.h.piEKU != 0 || s.h.sameSKI || s.h.caCT || s.alone {
 		return true
 	}
 	lay := (s.m == 3 && s.poison <= 0 && s.akiPos == 0) || (s.m == 1 && (s.poison < 0 || s.poison == s.m+b2i(s.leafAKI)) && s.akiPos == 0)
